@@ -73,8 +73,12 @@ class Gen:
         if r < 0.75:
             return ("cmp", V(x), rng.choice(CMP), V(y))
         op = rng.choice(["+", "-", "*"])
-        if rng.random() < 0.5:
+        form = rng.random()
+        if form < 0.35:
             return ("cmp", V(x), rng.choice(CMP), ("bin", op, V(y), C(rng.choice([1, 2, 3]))))
+        if form < 0.7:
+            # arithmetic on the LEFT, bare variable on the right (the builder mirrors the operator)
+            return ("cmp", ("bin", op, V(y), C(rng.choice([1, 2, 3]))), rng.choice(CMP), V(x))
         return ("cmp", ("bin", op, V(x), V(y)), rng.choice(CMP), C(rng.choice(CONSTS)))
 
     def neg_lit(self, avail, bound):
@@ -203,7 +207,7 @@ class Gen:
         else:
             rules.append({"head": ("r", [V("X"), V("Y")]), "body": [("pos", e, [V("X"), V("Y")])]})
             rules.append({"head": ("r", [V("X"), V("Y")]), "body": [("pos", "b" if e != "b" else "a", [V("X"), V("Y")])]})
-        rk = rng.choice(["right", "left", "nonlinear", "other_edge", "filter", "neg", "perm", "perm", "perm"])
+        rk = rng.choice(["right", "left", "nonlinear", "other_edge", "filter", "neg", "perm", "perm", "perm", "sym"])
         e2 = e
         if rk == "other_edge":
             e2 = rng.choice([x for x in ["a", "b", "e"] if x != e])
@@ -219,6 +223,9 @@ class Gen:
                 body.reverse()
             head = [V("X"), V("Z")] if rng.random() < 0.6 else [V("Z"), V("X")]
             rules.append({"head": ("r", head), "body": body})
+        elif rk == "sym":
+            # symmetric closure: the recursive atom alone, arguments swapped
+            rules.append({"head": ("r", [V("X"), V("Y")]), "body": [("pos", "r", [V("Y"), V("X")])]})
         elif rk == "left":
             rules.append({"head": ("r", [V("X"), V("Z")]), "body": [("pos", "r", [V("X"), V("Y")]), ("pos", e, [V("Y"), V("Z")])]})
         elif rk == "nonlinear":
@@ -230,6 +237,9 @@ class Gen:
         else:
             rules.append({"head": ("r", [V("X"), V("Z")]),
                           "body": [("pos", e, [V("X"), V("Y")]), ("pos", "r", [V("Y"), V("Z")]), ("neg", "c", [V("Z")])]})
+        if rng.random() < 0.35:
+            # base clauses are not always written first
+            rng.shuffle(rules)
         qk = rng.choice(["all", "bound1", "bound2", "filter", "neg", "count", "join", "both", "boundjoin",
                          "mq1", "mq2", "mq1", "mq2", "mqjoin"])
         qhead = "q"
@@ -432,6 +442,19 @@ def templates():
         for x, y in itertools.combinations(vs, 2):
             head = [V(vs[0]), V(vs[-1])]
             out.append({"rules": [{"head": ("q", head), "body": body + [("cmp", V(x), "<", V(y))]}], "query": "q"})
+    # comparisons with arithmetic on either side, every operator (boundary rows are found by the solver)
+    for op in CMP:
+        out.append({"rules": [{"head": ("q", [V("X"), V("Y")]),
+                               "body": [("pos", "a", [V("X"), V("Y")]), ("cmp", ("bin", "+", V("X"), C(1)), op, V("Y"))]}], "query": "q"})
+        out.append({"rules": [{"head": ("q", [V("X"), V("Y")]),
+                               "body": [("pos", "a", [V("X"), V("Y")]), ("cmp", V("Y"), op, ("bin", "-", V("X"), C(1)))]}], "query": "q"})
+    # a unary filter atom written first, a three-atom chain and a negation covered by an earlier atom
+    out.append({"rules": [{"head": ("q", [V("X"), V("Z")]),
+                           "body": [("pos", "c", [V("Z")]), ("pos", "a", [V("X"), V("Y")]), ("pos", "b", [V("Y"), V("Z")]),
+                                    ("neg", "e", [V("X"), ("wild",)])]}], "query": "q"})
+    out.append({"rules": [{"head": ("q", [V("X"), V("Z")]),
+                           "body": [("pos", "a", [V("X"), V("Y")]), ("pos", "c", [V("Y")]), ("pos", "b", [V("Y"), V("Z")]),
+                                    ("neg", "c", [V("X")]), ("neg", "e", [V("Z"), V("X")])]}], "query": "q"})
     # atoms carrying two constants / a constant and a repeated variable, joined with another atom
     multi = [
         [("pos", "d", [V("X"), C(1), C(2)]), ("pos", "b", [V("X"), V("Y")])],
@@ -486,7 +509,12 @@ class PlanGen:
     def tree(self, depth):
         rng = self.rng
         if depth <= 0 or rng.random() < 0.15:
-            return self.scan()
+            t, w = self.scan()
+            r = rng.random()
+            if r < 0.08:
+                # a statically empty input with a proper schema (the optimizer turns it into an empty Union)
+                return {"op": "Filter", "input": t, "pred": {"p": "False"}, "w": w}, w
+            return t, w
         k = rng.choice(["Map", "Map", "Filter", "Filter", "Filter", "Join", "Join", "Distinct", "Union", "Antijoin",
                         "Compute", "Aggregate"])
         if k == "Map":
